@@ -374,6 +374,9 @@ def fixed_corpus():
     # many leaves (more than 64), all overlapping with one identifier pattern: per-state match lists and leaf tables beyond the
     # sizes small fixed buffers or bit sets would hold
     out.append(Def([L('token', 'kw%02d' % j) for j in range(66)] + [L('regex', '[a-z]+[0-9]*'), L('skip', ' ')], origin='fixed:many-leaves'))
+    # an accepting loop state followed by an optional suffix that starts with two or more mandatory bytes (exponent, range
+    # operator): a place where code might look ahead before committing
+    out.append(Def([L('regex', '[0-9]+(e-[0-9]+)?'), L('regex', '[a-z]+(\\.\\.=[a-z]+)?'), L('token', '.'), L('skip', ' ')], origin='fixed:opt-suffix'))
     # byte mode with arbitrary bytes
     out.append(Def([L('token', bytes([0xff, 0x00, 0x61]), is_bytes=True), L('regex', '(?-u)[\\x80-\\xbf]+'),
                     L('regex', 'é+'), L('regex', '[a-z]+')], utf8=False, origin='fixed:bytes'))
